@@ -23,6 +23,8 @@ def run_property(pid, tier, seed, replay=None):
             thorough = getattr(mod, "run_thorough", None)
             if thorough is not None:
                 thorough(prog, ctx)
+            from . import selftest
+            selftest.run_for(pid, ctx)
         if replay:
             with open(replay) as fh:
                 want = json.load(fh).get("key")
